@@ -40,7 +40,7 @@ Step(obs) ==
   /\ nf' = nf + (IF fl' = <<>> THEN 0 ELSE 1)
   /\ (fl' # <<>>) => PrintT(<<"OBL_FAIL", l, fl'>>)
 
-AuxInit == [fresh |-> FALSE, cnt |-> 0, afterGc |-> FALSE, afterRo |-> FALSE, afterAdd |-> FALSE, gcSeen |-> 0, roSeen |-> 0]
+AuxInit == [fresh |-> FALSE, cnt |-> 0, afterGc |-> FALSE, afterRo |-> FALSE, afterAdd |-> FALSE, afterFail |-> FALSE, expectOk |-> FALSE, gcSeen |-> 0, roSeen |-> 0]
 
 ----------------------------------------------------------------------------
 (* structural predicates on a node list in sub-graph form
@@ -298,13 +298,20 @@ OpValue(r) ==
   ELSE {}
 OpObs(r, val) ==
   LET P == PropOfOp(r.op) IN
-  IF Has(r, "res") THEN << O(P, "failed:" \o r.op, FALSE) >>
+  IF Has(r, "res") THEN << O(P, "failed:" \o r.op, FALSE),
+                            \* C14: the only acceptable failure is the out-of-memory error
+                            O("C14", "fail.not_oom:" \o r.op, Has(r.res, "oom")),
+                            \* ... and not after enough space has been freed
+                            O("C14", "retry.ok:" \o r.op, ~aux.expectOk) >>
   ELSE
     LET g == r.g
         ok == OpGraphOk(r)
     IN << O("C03", "op.graph", ok),
           O(P, "sem:" \o r.op, ArgsLive(r) /\
                 (IF r.op \in PickOps THEN PickDdOk(r, val) ELSE val = Expected(r))),
+          O("C14", "sem:" \o r.op, ArgsLive(r) /\
+                (IF r.op \in PickOps THEN PickDdOk(r, val) ELSE val = Expected(r))),
+          O("C14", "canon:" \o r.op, \A s \in Live : (Val(s) = val) <=> (EdgeOf(s) = r.e)),
           O("C06", "cache:" \o r.op, ArgsLive(r) /\
                 (IF r.op \in PickOps THEN PickDdOk(r, val) ELSE val = Expected(r))),
           O("C02", "eval", SeqToSet(r.tt) = val),
@@ -317,9 +324,10 @@ TrOp ==
   /\ IF Has(Rec[l], "res")
      THEN /\ hs' = hs
           /\ Step(OpObs(Rec[l], {}))
+          /\ aux' = [aux EXCEPT !.fresh = FALSE, !.afterFail = TRUE, !.expectOk = FALSE]
      ELSE /\ hs' = Put(Rec[l].h, Rec[l].e, OpValue(Rec[l]))
           /\ Step(OpObs(Rec[l], hs'[Rec[l].h].v))
-  /\ aux' = [aux EXCEPT !.fresh = FALSE]
+          /\ aux' = [aux EXCEPT !.fresh = FALSE, !.expectOk = FALSE]
   /\ UNCHANGED <<kind, n, l2v, gcN, roN>>
 
 TrCofNone ==
@@ -402,6 +410,14 @@ TrBegin ==
   /\ Step(<<>>)
   /\ UNCHANGED <<kind, n, l2v, hs, gcN, roN, aux>>
 
+(* C14: after space has been freed the failed operation is retried and must
+   succeed; `expect_ok` events precede the retry *)
+TrExpectOk ==
+  /\ Ev("expect_ok")
+  /\ Step(<<>>)
+  /\ aux' = [aux EXCEPT !.expectOk = TRUE]
+  /\ UNCHANGED <<kind, n, l2v, hs, gcN, roN>>
+
 (* summary line of a table replay (T binding): rows replayed / rows whose
    result was not the canonical handle the table prescribes; the mismatching
    rows themselves precede this event as ordinary `op` events *)
@@ -478,6 +494,10 @@ SnapObs(r) ==
         O("C05", "snap.rc", rcOk),
         O("C16", "snap.after_add_vars", aux.afterAdd =>
               (ok /\ stable /\ GraphOrdered(g) /\ levelsOk /\ reducedOk /\ nodupOk /\ semInj /\ rcOk)),
+        \* C14: after a failed operation everything acquired was released and
+        \* the diagram is intact
+        O("C14", "snap.after_failure", aux.afterFail =>
+              (ok /\ stable /\ GraphOrdered(g) /\ levelsOk /\ reducedOk /\ nodupOk /\ semInj /\ rcOk)),
         O("C08", "snap.wellformed", aux.afterRo =>
               (ok /\ GraphOrdered(g) /\ levelsOk /\ reducedOk /\ nodupOk /\ semInj /\ rcOk)),
         O("C05", "snap.gc.complete", (aux.afterGc /\ ok) => \A i \in I : N[i][4] > 0),
@@ -486,7 +506,7 @@ SnapObs(r) ==
 TrSnap ==
   /\ Ev("snap")
   /\ Step(SnapObs(Rec[l]))
-  /\ aux' = [fresh |-> TRUE, cnt |-> Len(Rec[l].nodes), afterGc |-> FALSE, afterRo |-> FALSE, afterAdd |-> FALSE,
+  /\ aux' = [fresh |-> TRUE, cnt |-> Len(Rec[l].nodes), afterGc |-> FALSE, afterRo |-> FALSE, afterAdd |-> FALSE, afterFail |-> FALSE, expectOk |-> aux.expectOk,
              gcSeen |-> Rec[l].gc, roSeen |-> Rec[l].ro]
   /\ UNCHANGED <<kind, n, l2v, hs, gcN, roN>>
 
@@ -499,7 +519,7 @@ TrInit ==
 TrNext ==
   \/ TrReset \/ TrAddVars \/ TrOp \/ TrCofNone \/ TrClone \/ TrDrop
   \/ TrGc \/ TrReorder \/ TrObs \/ TrSnap \/ TrAdopt \/ TrConstructMismatch
-  \/ TrRows \/ TrBegin \/ TrPick \/ TrUni \/ TrCount
+  \/ TrRows \/ TrBegin \/ TrPick \/ TrUni \/ TrCount \/ TrExpectOk
 
 TrSpec == TrInit /\ [][TrNext]_tvars
 
